@@ -385,7 +385,8 @@ func TestVerif_C38_Hist(t *testing.T) {
 		path := rapid.IntRange(0, 1).Draw(rt, "path")
 		dir, err := mkdir()
 		if err != nil {
-			rt.Skip("tempdir")
+			rec.Label("inconclusive:tempdir")
+			return
 		}
 		defer rmdir(dir)
 		// diagnostics only: if a case is stuck for 150 s, leave the goroutine stacks behind
